@@ -2,7 +2,7 @@ UNIT = dict(
     sources={"w": "src/storage/write_buffer.rs", "c": "src/constants.rs"},
     uses=["use std::sync::Arc;"],
     prelude=["start_opaque.rs"],
-    rules=["startmisc"],
+    rules=["startmisc", "sig_start"],
     inline_containers=["ShardedWriteBuffer"],
     forbid=[r"\.\s*iter\s*\(\s*\)", r"into_iter", r"step_by", r"thread\s*::", r"get_mut"],
     lifts={
@@ -15,7 +15,7 @@ UNIT = dict(
         )],
     },
     items=[
-        ("impl", "w", "WriteBuffer", ["start_workers"], {"header": "impl WriteBuffer {"}),
+        ("impl", "w", "WriteBuffer", ["new", "start_workers"], {"header": "impl WriteBuffer {"}),
     ],
     contracts="contracts.vc",
     spec=["spec.rs"],
